@@ -962,7 +962,9 @@ wavlike_subchunk_parse (SF_PRIVATE *psf, int chunk, uint32_t chunk_length)
 	if (chunk_length <= 8)
 	{	/* This case is for broken files generated by PEAK. */
 		psf_log_printf (psf, "%M : %u (weird length)\n", chunk, chunk_length) ;
-		psf_binheader_readf (psf, "mj", &chunk, chunk_length - 4) ;
+		/* Only jump back over what was really read, or a failed read turns this into an endless loop. */
+		bytesread = psf_binheader_readf (psf, "m", &chunk) ;
+		psf_binheader_readf (psf, "j", chunk_length - bytesread) ;
 		psf_log_printf (psf, "  %M\n", chunk) ;
 		return 0 ;
 		} ;
